@@ -327,11 +327,11 @@ def frag(rng):
     if r < 0.36:
         return f"{num(rng)} {rep(rng)} {num(rng)}"
     if r < 0.46:
-        return f"{name(rng)}, {num(rng)} {rep(rng)}{rng.choice(['', ','])} at {num(rng)}"
+        return f"{name(rng)}{rng.choice([', ', ', ', ' , ', ' '])}{num(rng)} {rep(rng)}{rng.choice(['', ','])} at {num(rng)}"
     if r < 0.50:
         return f"{name(rng)}, {num(rng)} {rep(rng)} at {num(rng)}, {num(rng)} {rep(rng)} {num(rng)}"
     if r < 0.57:
-        return f"{ref_name(rng)}, {rng.choice(['', num(rng) + ' '])}supra{rng.choice([', at ' + num(rng), '', ',', ' at ' + num(rng)])}"
+        return f"{ref_name(rng)}{rng.choice([', ', ', ', ' , ', ' '])}{rng.choice(['', num(rng) + ' '])}supra{rng.choice([', at ' + num(rng), '', ',', ' at ' + num(rng)])}"
     if r < 0.65:
         return rng.choice(["Id.", "Id. at " + num(rng), "Ibid.", "id., at " + num(rng) + "-" + num(rng),
                            "Id. at " + num(rng) + " (noting x)", "Id., at *" + num(rng)])
